@@ -4,3 +4,5 @@ import NemoVerif.Theorems.C04
 import NemoVerif.Drive.C04
 import NemoVerif.Theorems.C09
 import NemoVerif.Drive.C09
+import NemoVerif.Lemmas.CoreVM
+import NemoVerif.Drive.CoreVMJson
